@@ -120,3 +120,24 @@ Lemma top_target_encoding_len enc ud s :
   rle_len (snd (apply_target_encoding enc ud s)) = zlen (fst (apply_target_encoding enc ud s)) /\
   rle_len (snd (ate_bytes s)) = zlen (fst (ate_bytes s)).
 Proof. split; [apply apply_target_encoding_len|apply ate_bytes_len]. Qed.
+
+(* trim_text_attr_cs on the UTF-8 encoding of a text: defined, and the three results have one length *)
+Lemma top_trim_text_attr_cs_utf8 wcw (Hw : forall c, wcw c <= 2) s (attr cs : rle) sc ec wl :
+  scalars s -> 0 <= sc < ec -> calc_width wcw MStr s 0 (zlen s) = Ok wl -> ec <= wl ->
+  nn attr -> nn cs -> rle_len attr = zlen (encs s) -> rle_len cs = zlen (encs s) ->
+  exists t a c, trim_text_attr_cs wcw MUtf8 (encs s) attr cs sc ec = Ok (t, a, c) /\
+                rle_len a = zlen t /\ rle_len c = zlen t.
+Proof.
+  intros Hs Hc Hwl Hec Na Nc La Lc. pose proof (zlen_nonneg s) as Hn.
+  destruct (top_trim_str wcw Hw s 0 (zlen s) sc ec wl ltac:(lia) ltac:(lia) Hc Hwl Hec)
+    as (sp & ep & pl & pr & ws & E & Hsp & Hep & Hpl & Hpr & _).
+  destruct (top_trim_utf8 wcw s 0 (zlen s) sc ec Hs ltac:(lia) ltac:(lia)) as (sp' & ep' & pl' & pr' & E1 & E2).
+  rewrite E in E1. inversion E1. subst sp' ep' pl' pr'.
+  replace (boff s 0) with 0 in E2 by reflexivity. rewrite boff_full in E2.
+  pose proof (boff_mono s 0 sp ltac:(lia) ltac:(lia)) as M1. replace (boff s 0) with 0 in M1 by reflexivity.
+  pose proof (boff_mono s sp ep ltac:(lia) ltac:(lia)) as M2.
+  pose proof (boff_mono s ep (zlen s) ltac:(lia) ltac:(lia)) as M3. rewrite boff_full in M3.
+  destruct (trim_text_attr_cs_lens wcw MUtf8 (encs s) attr cs sc ec (boff s sp) (boff s ep) pl pr E2
+              ltac:(lia) ltac:(lia) Hpl Hpr Na Nc La Lc) as (t & a & c & Et & _ & Ha & Hcc).
+  exists t, a, c. repeat split; assumption.
+Qed.
